@@ -122,7 +122,17 @@ func (m *MemSymbols) scalarOf(kind, rowID string, parts []string) Val {
 			return NullV()
 		}
 		if parts[0] == "tags" {
-			if len(parts) != 2 || p.NoTags {
+			if p.NoTags {
+				return NullV()
+			}
+			if len(parts) == 3 && parts[1] == "sub" {
+				v, ok := p.SubTags[parts[2]]
+				if !ok {
+					return NullV()
+				}
+				return v
+			}
+			if len(parts) != 2 {
 				return NullV()
 			}
 			v, ok := p.Tags[parts[1]]
